@@ -398,5 +398,7 @@ func catalogPods() []PodCase {
 	// noise fields in isolation: must not change anything
 	add("noise.nodeSelector.windows", func(p *corev1.Pod) { p.Spec.NodeSelector = map[string]string{"kubernetes.io/os": "windows"} })
 	add("noise.all", func(p *corev1.Pod) { podNoise(NewRng(7), p) })
+	// fields some revision reads although no expected read-set mentions them, set to the constants that revision mentions
+	out = append(out, dictPods(base)...)
 	return out
 }
